@@ -39,7 +39,7 @@ struct Limits : Profile {
     std::vector<std::string> required_probes() const override
     {
         return {"reserve-near-limit", "beyond-limit-refused", "far-write", "ref-65535", "refs-exhausted", "members-65535", "member-65536-refused", "order-over-limit-refused",
-                "fields-257-refused", "long-name-vdata", "long-name-sds", "rank-33-refused", "sds-bytes-over-limit", "open-table-full", "reopen", "canaries-checked", "append-near-limit", "recsize-with-predefined-field"};
+                "fields-257-refused", "long-name-vdata", "long-name-sds", "rank-33-refused", "sds-bytes-over-limit", "open-table-full", "reopen", "canaries-checked", "append-near-limit", "recsize-with-predefined-field", "seekfar-fits", "seekfar-over", "long-name-refused-on-named-vgroup"};
     }
 
     Plan generate(Rng &rng, bool thorough, uint64_t) override
@@ -53,8 +53,8 @@ struct Limits : Profile {
         int n           = (int)r.range(8, thorough ? 40 : 30);
         static const int64_t lens[] = {63, 64, 65, 66, 127, 128, 129, 255, 256, 257, 1000, 70000};
         static const std::vector<int> w = {/*reserve*/ 14, /*farwrite*/ 6, /*small*/ 8, /*hlbig*/ 5, /*ref65535*/ 5, /*newrefs*/ 8, /*exhaust*/ 1, /*members*/ 4,
-                                           /*order*/ 6,    /*nfields*/ 5,  /*recsize*/ 4, /*name*/ 16, /*rank*/ 4,    /*sdbig*/ 6,    /*hopen*/ 2,   /*sdopen*/ 3, /*reopen*/ 5, /*appendfar*/ 6};
-        static const char *names[] = {"reserve", "farwrite", "small", "hlbig", "ref65535", "newrefs", "exhaust", "members", "order", "nfields", "recsize", "name", "rank", "sdbig", "hopen", "sdopen", "reopen", "appendfar"};
+                                           /*order*/ 6,    /*nfields*/ 5,  /*recsize*/ 4, /*name*/ 16, /*rank*/ 4,    /*sdbig*/ 6,    /*hopen*/ 2,   /*sdopen*/ 3, /*reopen*/ 5, /*appendfar*/ 6, /*seekfar*/ 5};
+        static const char *names[] = {"reserve", "farwrite", "small", "hlbig", "ref65535", "newrefs", "exhaust", "members", "order", "nfields", "recsize", "name", "rank", "sdbig", "hopen", "sdopen", "reopen", "appendfar", "seekfar"};
         for (int i = 0; i < n; i++) {
             int k = r.weighted(w);
             if (k == 6 && !thorough && !r.chance(0.3))
@@ -105,6 +105,9 @@ struct Limits : Profile {
                     break;
                 case 15:
                     p.ops.push_back(mkop(0, names[k], {r.range(-3, 6)}));
+                    break;
+                case 18: // slack around the limit, length of the write
+                    p.ops.push_back(mkop(0, names[k], {r.range(-4, 4), r.chance(0.5) ? 100 : r.range(1, 300), (int64_t)r.below(2)}));
                     break;
                 case 17: // first bring the end of the file near the limit, then append
                     p.ops.push_back(mkop(0, "reserve", {0, r.range(-60000, -3000), 0}));
@@ -468,6 +471,55 @@ struct Limits : Profile {
                     ctx.probe("append-near-limit");
                 }
             }
+            else if (k == "seekfar") {
+                // an appendable element at the end of a file of its own: a seek far beyond its end and a write there.  The write
+                // is in place, so it is the element's offset PLUS the position PLUS the length that must stay below 2^31.
+                std::string f = strf("/sim/lim_seek%d.hdf", s.seq);
+                int32       fid = Hopen(f.c_str(), DFACC_CREATE, 0);
+                uint8_t     z[16] = {1, 2, 3, 4, 5, 6, 7, 8, 9, 10, 11, 12, 13, 14, 15, 16};
+                if (fid == FAIL || Hputelement(fid, 8430, 1, z, 16) != 16)
+                    ctx.fail("unusable", "unusable:seekfar-setup", strf("setting up the file failed: %s", herr().c_str()));
+                int32 aid = Hstartaccess(fid, 8431, 1, DFACC_WRITE | DFACC_APPENDABLE);
+                if (aid == FAIL || Hwrite(aid, 10, z) != 10)
+                    ctx.fail("unusable", "unusable:seekfar-setup", strf("creating the appendable element failed: %s", herr().c_str()));
+                int32 off = 0;
+                if (HQueryoffset(aid, &off) == FAIL || off <= 0)
+                    ctx.fail("unusable", "unusable:seekfar-setup", "HQueryoffset on the new element failed");
+                int32   wl   = (int32)std::max<int64_t>(1, o.arg(1));
+                int64_t posn = LIM - (int64_t)off - wl + o.arg(0); // slack 0: the write ends exactly at 2^31-1
+                std::vector<uint8_t> d = data_block((uint64_t)s.seq, (size_t)wl);
+                int32 sk = Hseek(aid, (int32)posn, DF_START);
+                int32 n  = sk == FAIL ? FAIL : Hwrite(aid, wl, d.data());
+                ctx.tr((uint64_t)(int64_t)n);
+                bool fits = (int64_t)off + posn + wl <= LIM;
+                if (n != FAIL && !fits)
+                    ctx.fail("accepted-over-limit", "accepted-over-limit:Hwrite-after-seek",
+                             strf("an element at offset %d took a write of %d bytes at position %lld: it ends at %lld, beyond 2^31-1", (int)off, (int)wl, (long long)posn,
+                                  (long long)off + posn + wl));
+                if (n == FAIL && fits && sk != FAIL)
+                    ctx.probe("seekfar-refused-although-it-fits"); // the library may be more careful than the format demands
+                if (Hendaccess(aid) == FAIL)
+                    ctx.fail("unusable", "unusable:seekfar-endaccess", strf("Hendaccess after the far write failed: %s", herr().c_str()));
+                // the file stays usable: something new finds room or is refused, and nothing overlaps
+                int32 m = Hputelement(fid, 8432, 1, z, 16);
+                (void)m;
+                if (o.arg(2)) {
+                    int32 l = Hlength(fid, 8431, 1);
+                    if (n != FAIL && l != (int32)(posn + wl))
+                        ctx.fail("wrapped", "wrapped:seekfar-length", strf("after a write of %d bytes at position %lld the element reports length %d", (int)wl, (long long)posn, (int)l));
+                }
+                if (Hclose(fid) == FAIL)
+                    ctx.fail("unusable", "unusable:seekfar-close", strf("Hclose failed: %s", herr().c_str()));
+                scan_sparse(s, f, "after a write far beyond the end of the last element");
+                fid = Hopen(f.c_str(), DFACC_READ, 0);
+                uint8_t back[16] = {0};
+                if (fid == FAIL || Hgetelement(fid, 8430, 1, back) != 16 || memcmp(back, z, 16) != 0)
+                    ctx.fail("unusable", "unusable:seekfar-reopen", "the file cannot be read back after the far write");
+                if (fid != FAIL)
+                    Hclose(fid);
+                simfs::disk().erase(f);
+                ctx.probe(fits ? "seekfar-fits" : "seekfar-over");
+            }
             else if (k == "hlbig") {
                 // linked-block element with huge blocks: the sums block_length * n must not wrap
                 open_big(s);
@@ -732,18 +784,40 @@ struct Limits : Profile {
                 }
                 else if (which == 2 || which == 3) { // Vgroup name / class: any length
                     int32 vg = Vattach(s.fid, -1, "w");
+                    // the group may have a name and a class already: a refused call leaves them as they were
+                    bool  pre = o.arg(2) != 0;
+                    if (pre && (Vsetname(vg, "name_before") == FAIL || Vsetclass(vg, "class_before") == FAIL))
+                        ctx.fail("unusable", "unusable:vsetname", "Vsetname/Vsetclass with a short name failed");
                     intn  r = which == 2 ? Vsetname(vg, nm.c_str()) : Vsetclass(vg, nm.c_str());
+                    auto  current = [&](int32 id, bool cls) {
+                        uint16 l = 0;
+                        (cls ? Vgetclassnamelen(id, &l) : Vgetnamelen(id, &l));
+                        std::vector<char> b((size_t)l + 8, 0);
+                        (cls ? Vgetclass(id, b.data()) : Vgetname(id, b.data()));
+                        return std::string(b.data());
+                    };
+                    auto unchanged = [&](int32 id, const char *when) {
+                        if (current(id, false) != (which == 2 && r != FAIL ? nm : std::string("name_before")) ||
+                            current(id, true) != (which == 3 && r != FAIL ? nm : std::string("class_before")))
+                            ctx.fail("name-mangled", strf("name-mangled:%s-%s", which == 2 ? "Vsetname" : "Vsetclass", r == FAIL ? "refused" : "neighbour"),
+                                     strf("%s: after a %s %s with %zu characters the group has name '%.30s' and class '%.30s' (were 'name_before', 'class_before')", when,
+                                          r == FAIL ? "refused" : "successful", which == 2 ? "Vsetname" : "Vsetclass", nm.size(), current(id, false).c_str(),
+                                          current(id, true).c_str()));
+                    };
+                    if (pre)
+                        unchanged(vg, "in the session");
                     uint16 ref = (uint16)VQueryref(vg);
-                    Vdetach(vg);
+                    if (Vdetach(vg) == FAIL)
+                        ctx.fail("unusable", "unusable:vdetach", strf("Vdetach after %s with %zu characters failed", which == 2 ? "Vsetname" : "Vsetclass", nm.size()));
                     vg = Vattach(s.fid, ref, "r");
-                    uint16 l = 0;
-                    (which == 2 ? Vgetnamelen(vg, &l) : Vgetclassnamelen(vg, &l));
-                    std::vector<char> b((size_t)l + 8, 0);
-                    (which == 2 ? Vgetname(vg, b.data()) : Vgetclass(vg, b.data()));
+                    if (pre)
+                        unchanged(vg, "after detach and attach");
                     if (r != FAIL)
-                        name_ok(s, which == 2 ? "Vsetname" : "Vsetclass", nm, b.data(), 65535);
+                        name_ok(s, which == 2 ? "Vsetname" : "Vsetclass", nm, current(vg, which == 3).c_str(), 65535);
                     Vdetach(vg);
                     ctx.probe("long-name-vgroup");
+                    if (pre && r == FAIL)
+                        ctx.probe("long-name-refused-on-named-vgroup");
                 }
                 else if (which == 4) { // field name
                     int32 vs = VSattach(s.fid, -1, "w");
